@@ -643,7 +643,11 @@ class GroupBy:
             else:
                 type_list[i] = val.dtype if hasattr(val, "dtype") else val.type
 
-        if mask is not None and pd.api.types.is_bool_dtype(mask):
+        mask_is_boolean = mask is not None and (
+            pd.api.types.is_bool_dtype(mask)
+            or (isinstance(mask, pl.Series) and mask.dtype == pl.Boolean)
+        )
+        if mask_is_boolean:
             to_check = [*to_check, mask]
 
         common_index = _validate_input_lengths_and_indexes(to_check)
